@@ -83,6 +83,13 @@ func main() {
 							add(x.OpPos, x.Op.String(), alt, "operator")
 						}
 					case *ast.BasicLit:
+						if x.Kind == token.STRING {
+							for _, r := range [][2]string{{"%w", "%v"}, {"%q", "%s"}, {"%04d", "%4d"}, {"%02d", "%2d"}, {"%08x", "%8x"}, {"%04x", "%4x"}, {"%012x", "%12x"}, {"%d", "%x"}} {
+								if i := strings.Index(x.Value, r[0]); i >= 0 {
+									add(x.ValuePos+token.Pos(i), r[0], r[1], "format")
+								}
+							}
+						}
 						if x.Kind == token.INT && !strings.HasPrefix(x.Value, "0x") && !strings.HasPrefix(x.Value, "0b") && len(x.Value) < 10 && !strings.Contains(x.Value, "_") {
 							var v int64
 							if _, err := fmt.Sscan(x.Value, &v); err == nil {
@@ -98,6 +105,24 @@ func main() {
 					case *ast.UnaryExpr:
 						if x.Op == token.NOT {
 							add(x.OpPos, "!", "", "drop-not")
+						}
+					case *ast.ExprStmt:
+						s, e := fset.Position(x.Pos()).Offset, fset.Position(x.End()).Offset
+						add(x.Pos(), string(src[s:e]), "", "delete-call")
+					case *ast.AssignStmt:
+						if x.Tok != token.DEFINE {
+							s, e := fset.Position(x.Pos()).Offset, fset.Position(x.End()).Offset
+							add(x.Pos(), string(src[s:e]), "", "delete-assign")
+						}
+					case *ast.BranchStmt:
+						if x.Label == nil && (x.Tok == token.CONTINUE || x.Tok == token.BREAK) {
+							add(x.Pos(), x.Tok.String(), "", "delete-branch")
+						}
+					case *ast.Ident:
+						if x.Name == "true" {
+							add(x.Pos(), "true", "false", "bool")
+						} else if x.Name == "false" {
+							add(x.Pos(), "false", "true", "bool")
 						}
 					case *ast.IncDecStmt:
 						if x.Tok == token.INC {
